@@ -431,4 +431,10 @@ theorem kinv_injective {s : KSys} (inv : KInv s) : KInjective s := by
   simp [KThread.Ok, hb] at o2
   exact (inv.inj _ _ _ _ _ o1 o2).2
 
+/-- two completed calls for one name with different ids refute `KStable` -/
+theorem not_stable_of_two_ids {s : KSys} {b n i j : Nat} (h : s.threads = [⟨b, n, .done i⟩, ⟨b, n, .done j⟩]) (hij : i ≠ j) :
+    ¬ KStable s := by
+  intro st
+  exact hij (st ⟨b, n, .done i⟩ (by rw [h]; simp) ⟨b, n, .done j⟩ (by rw [h]; simp) i j rfl rfl rfl rfl)
+
 end LinVerif.IdAssign
